@@ -351,6 +351,12 @@ func (e *FuncEnc) loadedFacts(x *ssa.UnOp, v string) {
 			e.assume(e.curReach, fmt.Sprintf("(and (<= %s %s) (<= %s %s))", lo, v, v, hi))
 		}
 	}
+	if ia, ok := x.X.(*ssa.IndexAddr); ok && e.W != nil && e.W.ElemFact != nil {
+		_ = ia
+		if f := e.W.ElemFact(e, t, v); f != "" {
+			e.assume(e.curReach, f)
+		}
+	}
 	if fa, ok := x.X.(*ssa.FieldAddr); ok && e.W != nil && e.W.FieldFact != nil {
 		st := fa.X.Type().Underlying().(*types.Pointer).Elem()
 		if f := e.W.FieldFact(e, st, fa.Field, e.v(fa.X), v); f != "" {
